@@ -1,8 +1,44 @@
 import AcryoVerif.Py
+import AcryoVerif.Model.Crop
 
 /-! Dispatch of hand-written model operations for the line-protocol driver. -/
 namespace Model
 
-def dispatch (_name : String) (_a : Array Rat) : Option String := none
+open Py
+
+private def i (a : Array Rat) (k : Nat) : Int := (a[k]!).floor
+
+/-- `prepAffine c0 c1 c2 s0 s1 s2 order N0 N1 N2` -/
+def opPrepAffine (a : Array Rat) : PyM (List Int × List Rat) := do
+  let mut lens : List Int := []
+  let mut trs : List Rat := []
+  for ax in [0, 1, 2] do
+    let w ← cropAxis a[ax]! (i a (3 + ax)) (i a 6) (i a (7 + ax))
+    let (l, t) := w.observe
+    lens := lens ++ [l]
+    trs := trs ++ [t]
+  return (lens, trs)
+
+/-- `prepAffineCS c0 c1 c2 maxLen s0 s1 s2 order N0 N1 N2` -/
+def opPrepAffineCS (a : Array Rat) : PyM (List Int × List Rat) := do
+  let mut lens : List Int := []
+  let mut trs : List Rat := []
+  for ax in [0, 1, 2] do
+    let w ← cropAxisCS a[ax]! a[3]! (i a (4 + ax)) (i a 7) (i a (8 + ax))
+    let (l, t) := w.observe
+    lens := lens ++ [l]
+    trs := trs ++ [t]
+  return (lens, trs)
+
+def flat (r : PyM (List Int × List Rat)) : String :=
+  match r with
+  | .ok (l, t) => " ".intercalate (l.map Canon.canon ++ t.map Canon.canon)
+  | .error e => "err:" ++ toString e
+
+def dispatch (name : String) (a : Array Rat) : Option String :=
+  match name with
+  | "prepAffine" => some (flat (opPrepAffine a))
+  | "prepAffineCS" => some (flat (opPrepAffineCS a))
+  | _ => none
 
 end Model
